@@ -198,17 +198,32 @@ def _inline_returned_helpers(model: Model, fi: FuncInfo, body: List[ast.stmt]) -
     def block(stmts: List[ast.stmt]) -> List[ast.stmt]:
         nonlocal changed
         out: List[ast.stmt] = []
-        for st in stmts:
+        skip_next = False
+        for i_, st in enumerate(stmts):
+            if skip_next:
+                skip_next = False
+                continue
+            nxt_ = stmts[i_ + 1] if i_ + 1 < len(stmts) else None
+            if _is_first_non_none_pair(st, nxt_):
+                # x = self._h(..); if x is not None: return x   with _h a private helper answering None for "not mine"
+                pseudo = ast.copy_location(ast.Return(value=st.value), st)
+                rep = _tail_helper_body(model, fi, [pseudo], all_names)
+                rep2 = _optional_conv(rep, st.targets[0].id, st) if rep is not None else None
+                if rep2 is not None:
+                    out.extend(rep2)
+                    changed = True
+                    skip_next = True
+                    continue
             if isinstance(st, ast.Return):
                 rep = _tail_helper_body(model, fi, [st], all_names)
                 if rep is not None:
                     out.extend(rep)
                     changed = True
                     continue
-            if isinstance(st, ast.Assign) and len(st.targets) == 1 and isinstance(st.targets[0], ast.Name) and isinstance(st.value, ast.Call):
+            if isinstance(st, ast.Assign) and len(st.targets) == 1 and (isinstance(st.targets[0], ast.Name) or (isinstance(st.targets[0], ast.Tuple) and all(isinstance(e_, ast.Name) for e_ in st.targets[0].elts))) and isinstance(st.value, ast.Call):
                 # x = self._h(..) where _h is `checks..; return e` (one return, the last statement): the checks, then x = e
                 pseudo = ast.copy_location(ast.Return(value=st.value), st)
-                rep = _tail_helper_body(model, fi, [pseudo], all_names, assign_to=st.targets[0].id)
+                rep = _tail_helper_body(model, fi, [pseudo], all_names, assign_to=st.targets[0])
                 if rep is not None:
                     out.extend(rep)
                     changed = True
@@ -242,7 +257,85 @@ def _inline_returned_helpers(model: Model, fi: FuncInfo, body: List[ast.stmt]) -
     return new, changed
 
 
-def _tail_helper_body(model: Model, fi: FuncInfo, body: List[ast.stmt], caller_names=None, procedure: bool = False, assign_to: Optional[str] = None) -> Optional[List[ast.stmt]]:
+def _is_none(e) -> bool:
+    return e is None or (isinstance(e, ast.Constant) and e.value is None)
+
+
+def _is_first_non_none_pair(st, nxt) -> bool:
+    if not (isinstance(st, ast.Assign) and len(st.targets) == 1 and isinstance(st.targets[0], ast.Name) and isinstance(st.value, ast.Call)):
+        return False
+    x = st.targets[0].id
+    if not (isinstance(nxt, ast.If) and not nxt.orelse and len(nxt.body) == 1 and isinstance(nxt.body[0], ast.Return) and isinstance(nxt.body[0].value, ast.Name) and nxt.body[0].value.id == x):
+        return False
+    t = nxt.test
+    return isinstance(t, ast.Compare) and len(t.ops) == 1 and isinstance(t.ops[0], ast.IsNot) and isinstance(t.left, ast.Name) and t.left.id == x and _is_none(t.comparators[0])
+
+
+def _optional_conv(stmts: List[ast.stmt], x: str, at: ast.stmt) -> Optional[List[ast.stmt]]:
+    """the statements of a helper (parameters already renamed) that answers None for "not mine", placed where
+    `x = helper(..); if x is not None: return x` stood: `return None` falls out to what follows, `return E` becomes
+    `x = E; if x is not None: return x` (just `return E` for a constructor call, which is never None)."""
+
+    def has_ret(n) -> bool:
+        return any(isinstance(y, ast.Return) for y in ast.walk(n))
+
+    def conv(ss: List[ast.stmt]) -> Optional[List[ast.stmt]]:
+        out: List[ast.stmt] = []
+        for i, st in enumerate(ss):
+            rest = ss[i + 1:]
+            if isinstance(st, ast.Return):
+                if _is_none(st.value):
+                    return out
+                e = st.value
+                never_none = isinstance(e, ast.Call) and isinstance(e.func, ast.Attribute) and isinstance(e.func.value, ast.Name) and e.func.value.id == "ast"
+                if never_none:
+                    out.append(_fresh(ast.copy_location(ast.Return(value=e), at)))
+                else:
+                    a_ = _fresh(ast.copy_location(ast.Assign(targets=[ast.Name(id=x, ctx=ast.Store())], value=e, type_comment=None), at))
+                    t_ = ast.Compare(left=ast.Name(id=x, ctx=ast.Load()), ops=[ast.IsNot()], comparators=[ast.Constant(value=None)])
+                    i_ = _fresh(ast.copy_location(ast.If(test=t_, body=[ast.Return(value=ast.Name(id=x, ctx=ast.Load()))], orelse=[]), at))
+                    out += [a_, i_]
+                return out
+            if not has_ret(st):
+                out.append(st)
+                continue
+            if isinstance(st, ast.If):
+                b = conv(list(st.body) + [clone_ast(r_) for r_ in rest])
+                o = conv(list(st.orelse) + [clone_ast(r_) for r_ in rest])
+                if b is None or o is None:
+                    return None
+                new = _fresh(ast.copy_location(ast.If(test=st.test, body=b or [ast.Pass()], orelse=o), st))
+                out.append(new)
+                return out
+            if isinstance(st, ast.Try) and not st.orelse and not st.finalbody and (not rest or (_terminates(list(st.body)) and all(_terminates(list(h_.body)) for h_ in st.handlers))):
+                b = conv(list(st.body))
+                hs = []
+                for h_ in st.handlers:
+                    hb = conv(list(h_.body))
+                    if hb is None:
+                        return None
+                    h2 = copy.copy(h_)
+                    h2.body = hb or [ast.Pass()]
+                    hs.append(h2)
+                if b is None:
+                    return None
+                new = _fresh(ast.copy_location(ast.Try(body=b or [ast.Pass()], handlers=hs, orelse=[], finalbody=[]), st))
+                out.append(new)
+                return out
+            return None
+        return out
+
+    r = conv(list(stmts))
+    if r is None:
+        return None
+    for st in r:
+        for y in ast.walk(st):
+            if not hasattr(y, "lineno") and isinstance(y, (ast.stmt, ast.expr)):
+                ast.copy_location(y, at)
+    return r
+
+
+def _tail_helper_body(model: Model, fi: FuncInfo, body: List[ast.stmt], caller_names=None, procedure: bool = False, assign_to: Optional[ast.expr] = None) -> Optional[List[ast.stmt]]:
     """`...; return self._h(a, b)` where _h is a private helper called from nowhere else and a, b are locals: the
     statements of _h with its parameters renamed to a, b (its other locals get a suffix when they would collide)."""
     from .lib import call_sites_of
@@ -256,7 +349,7 @@ def _tail_helper_body(model: Model, fi: FuncInfo, body: List[ast.stmt], caller_n
     if got is None:
         return None
     h, skip = got
-    if h is fi or isinstance(h.node, ast.Lambda) or not h.name.startswith("_") or h.name.startswith("__") or any(ast.unparse(d) != "staticmethod" for d in h.node.decorator_list):
+    if h is fi or isinstance(h.node, ast.Lambda) or not h.is_private or any(ast.unparse(d) != "staticmethod" for d in h.node.decorator_list):
         return None
     n_sites = len(call_sites_of(model, h))
     small = sum(1 for x in ast.walk(h.node) if isinstance(x, ast.stmt)) <= 8 and not any(c_ is h for c_, _cl, _sk in call_sites_of(model, h))
@@ -309,6 +402,32 @@ def _tail_helper_body(model: Model, fi: FuncInfo, body: List[ast.stmt], caller_n
         if inner & (set(ren) | set(const_args)):
             return None
 
+    if h.module is not fi.module:
+        # the helper's global names must mean the same thing where its statements now stand: an import is added for
+        # each one that does not (and the move is given up when the name is taken)
+        import builtins as _b
+
+        local_ = stores | set(h.pos_params) | {a.arg for nf in nested for a in ast.walk(nf) if isinstance(a, ast.arg)}
+        for st_ in h.node.body:
+            for x in ast.walk(st_):
+                if isinstance(x, (ast.Import, ast.ImportFrom)):
+                    local_ |= {(al.asname or al.name).split(".")[0] for al in x.names}
+        frees = sorted({x.id for st_ in h.node.body for x in ast.walk(st_) if isinstance(x, ast.Name) and isinstance(x.ctx, ast.Load)} - local_)
+        for g_ in frees:
+            there = model.resolve_dotted(h.module, h, g_)
+            if there == g_ and hasattr(_b, g_):
+                continue
+            here = model.resolve_dotted(fi.module, fi, g_)
+            if here == there and here != g_:
+                continue
+            if g_ in caller_names or "." not in there:
+                return None
+            mod_, _, nm_ = there.rpartition(".")
+            imp = ast.ImportFrom(module=mod_, names=[ast.alias(name=nm_, asname=(g_ if g_ != nm_ else None))], level=0)
+            ast.copy_location(imp, body[-1])
+            imp._fresh = True  # type: ignore
+            pre.insert(0, imp)
+
     class _R(ast.NodeTransformer):
         def visit_Name(self, n: ast.Name):
             if n.id in const_args and isinstance(n.ctx, ast.Load):
@@ -322,7 +441,7 @@ def _tail_helper_body(model: Model, fi: FuncInfo, body: List[ast.stmt], caller_n
     for st in hb:
         c_ = _R().visit(clone_ast(st))
         if assign_to is not None and st is hb[-1]:
-            c_ = ast.copy_location(ast.Assign(targets=[ast.Name(id=assign_to, ctx=ast.Store())], value=c_.value, type_comment=None), body[-1])
+            c_ = ast.copy_location(ast.Assign(targets=[clone_ast(assign_to)], value=c_.value, type_comment=None), body[-1])
         c_._fresh = True  # type: ignore
         out.append(c_)
     return out
@@ -401,12 +520,33 @@ def _unroll(model: Model, fi: FuncInfo) -> FuncInfo:
                 ch_ = True
                 i += 2
                 continue
+            rep = _match_first_non_none_loop(model, fi, s)
+            if rep is not None:
+                out_.extend(rep)
+                ch_ = True
+                i += 1
+                continue
             rep = _match_inline_loop(model, fi, s)
             if rep is not None:
                 out_.extend(rep)
                 ch_ = True
                 i += 1
                 continue
+            if isinstance(s, (ast.If, ast.With, ast.Try)) and any(isinstance(y, ast.For) for y in ast.walk(s)):
+                # a dispatch loop inside a branch
+                s2 = copy.copy(s)
+                sub_ch = False
+                for fld in ("body", "orelse", "finalbody"):
+                    if isinstance(getattr(s2, fld, None), list) and getattr(s2, fld):
+                        nb, c2 = tables(getattr(s2, fld))
+                        setattr(s2, fld, nb)
+                        sub_ch = sub_ch or c2
+                if sub_ch:
+                    _fresh(s2)
+                    out_.append(s2)
+                    ch_ = True
+                    i += 1
+                    continue
             out_.append(s)
             i += 1
         return out_, ch_
@@ -549,6 +689,50 @@ def _pairs_literal(model: Model, fi: FuncInfo, it: ast.AST) -> Optional[List[Tup
             out.append((p.elts[0], p.elts[1]))
         return out or None
     return None
+
+
+def _names_literal(model: Model, fi: FuncInfo, it: ast.AST) -> Optional[List[ast.AST]]:
+    """the literal behind `for name in <it>`: a module-level name or a class attribute read through self, holding a
+    tuple/list of constants or plain names, that nothing in the package writes"""
+    lit = None
+    if isinstance(it, ast.Name) and it.id not in fi.params:
+        lit = fi.module.assigns.get(it.id)
+        for f in model.funcs.values():
+            for n in own_nodes(f):
+                if isinstance(n, ast.Name) and n.id == it.id and isinstance(n.ctx, (ast.Store, ast.Del)) and f.module is fi.module:
+                    return None
+                if isinstance(n, ast.Global) and it.id in n.names:
+                    return None
+    elif isinstance(it, ast.Attribute) and isinstance(it.value, ast.Name) and fi.cls is not None and fi.pos_params and it.value.id == fi.pos_params[0]:
+        lit = fi.cls.class_assigns.get(it.attr)
+        for f in model.funcs.values():
+            for n in own_nodes(f):
+                if isinstance(n, ast.Attribute) and n.attr == it.attr and isinstance(n.ctx, (ast.Store, ast.Del)):
+                    return None
+    if not isinstance(lit, (ast.Tuple, ast.List)) or not lit.elts or not all(isinstance(e, (ast.Constant, ast.Name)) for e in lit.elts):
+        return None
+    return list(lit.elts)
+
+
+def _match_first_non_none_loop(model: Model, fi: FuncInfo, s: ast.stmt) -> Optional[List[ast.stmt]]:
+    """for h in TABLE: x = getattr(self, h)(args) [or h(args)]; if x is not None: return x   -> one such pair per entry"""
+    if not (isinstance(s, ast.For) and not s.orelse and isinstance(s.target, ast.Name) and len(s.body) == 2 and _is_first_non_none_pair(s.body[0], s.body[1])):
+        return None
+    hv = s.target.id
+    x = s.body[0].targets[0].id  # type: ignore
+    if any(isinstance(y, (ast.NamedExpr, ast.Await, ast.Yield, ast.YieldFrom)) for y in ast.walk(s)):
+        return None
+    for n in own_nodes(fi):
+        if isinstance(n, ast.Name) and n.id == hv and not any(n is y for y in ast.walk(s)):
+            return None
+    table = _names_literal(model, fi, s.iter)
+    if table is None:
+        return None
+    out: List[ast.stmt] = []
+    for e in table:
+        for st in s.body:
+            out.append(_fresh(_Sub({hv: e}).visit(clone_ast(st))))
+    return out
 
 
 def _match_inline_loop(model: Model, fi: FuncInfo, s: ast.stmt) -> Optional[List[ast.stmt]]:
